@@ -356,10 +356,10 @@ def _impl_shard(ctx, cases, si, release):
     return results
 
 
-def run_model(ctx, cases):
+def run_model(ctx, cases, release=False):
     cf = os.path.join(ctx.tmp, "model-cases.txt")
     write_cases(cf, cases)
-    rc, out = sh("ulimit -s unlimited 2>/dev/null; exec %s %s" % (model_bin(), cf), timeout=1800)
+    rc, out = sh("ulimit -s unlimited 2>/dev/null; exec %s %s %s" % (model_bin(), cf, "release" if release else "debug"), timeout=1800)
     res, _ = parse_results(out)
     if rc != 0:
         ctx.notes.append("model_run exited %d: %s" % (rc, out[-200:]))
